@@ -11,9 +11,12 @@ import progen
 
 IMPORTS = "Base Token TokEngine Lex Headers Blocks Pairing Fold ScanFile"
 
-_LC = ["// c", "//", "// see nocl below", "/* c */", "/* a } b { */", "/**/", "// page\x0cbreak", "/* a\x85b\u2028c */", "// nbsp\xa0"]
+# (the last four: openers longer than the comment leader — after ONE leader the text does not begin with the marker word, so
+#  these mark nothing, also as trailing comments on a function's name line; seeded change C04-20: leader stripped as a character set)
+_LC = ["// c", "//", "// see nocl below", "/* c */", "/* a } b { */", "/**/", "// page\x0cbreak", "/* a\x85b\u2028c */", "// nbsp\xa0",
+       "/// noclobber: keep", "/** noclobber */", "//// nocl", "/* * nocl */"]
 _BL = ["/* a\n   b\n*/", "/*\n * } nocl is not first\n */", "// a\n// b", "// nocl\n// on lines of their own"]
-LINE_COMMENTS = {"Python": ["# c", "#", "# see nocl below", "#!x", "# page\x0cbreak", "# a\x85b\u2028c", "# nbsp\xa0"],
+LINE_COMMENTS = {"Python": ["# c", "#", "# see nocl below", "#!x", "# page\x0cbreak", "# a\x85b\u2028c", "# nbsp\xa0", "## noclobber", "#; nocl"],
                  # the JavaScript / TypeScript lexers type the HTML-style opener as a plain Comment token
                  "JavaScript": _LC + ["<!-- legacy"], "TypeScript": _LC + ["<!-- legacy"],
                  "default": _LC}
